@@ -44,6 +44,7 @@ type bufPipe struct {
 
 func (b *bufPipe) Read(p []byte) (int, error) {
 	for {
+		simYield("bufPipe.Read.lock")
 		b.Lock()
 		if b.buf.Len() > 0 {
 			n, _ := b.buf.Read(p)
@@ -51,7 +52,9 @@ func (b *bufPipe) Read(p []byte) (int, error) {
 			return n, nil
 		}
 		b.Unlock()
+		simYield("bufPipe.Read.wait")
 		_, ok := <-b.ch
+		simYield("bufPipe.Read.woke")
 		if !ok {
 			return 0, b.err
 		}
@@ -59,6 +62,7 @@ func (b *bufPipe) Read(p []byte) (int, error) {
 }
 
 func (b *bufPipe) Write(p []byte) (int, error) {
+	simYield("bufPipe.Write.lock")
 	b.Lock()
 	defer b.Unlock()
 
@@ -76,6 +80,7 @@ func (b *bufPipe) Write(p []byte) (int, error) {
 func (b *bufPipe) Close() error { return b.CloseWithError(io.EOF) }
 
 func (b *bufPipe) CloseWithError(err error) error {
+	simYield("bufPipe.Close.lock")
 	b.Lock()
 	defer b.Unlock()
 
@@ -101,7 +106,9 @@ type ChunkReader struct {
 func (r *ChunkReader) ReadChunk(size uint16) (*KV, error) {
 	if r.r == nil {
 		// Get the next reader, which will be chunked into zero or more KVs
+		simYield("ChunkReader.next.wait")
 		nextReader, open := <-r.readers
+		simYield("ChunkReader.next.woke")
 		if !open {
 			return nil, io.EOF
 		}
@@ -162,7 +169,9 @@ func (r *ChunkReader) ReadChunk(size uint16) (*KV, error) {
 
 	// Read data, ensuring ServiceInfo will not be larger than size once
 	// marshaled to CBOR
+	simYield("ChunkReader.read.pre")
 	n, err := io.ReadFull(r.r, r.buffer[:int(size)-maxOverhead])
+	simYield("ChunkReader.read.post")
 	if err == io.EOF || err == io.ErrUnexpectedEOF {
 		r.r = nil
 		if n == 0 {
@@ -222,7 +231,9 @@ func (w *ChunkWriter) WriteChunk(kv *KV) error {
 
 	// Create a new IO pipe and send the reader to the UnchunkReader
 	pr, pw := w.pipe()
+	simYield("ChunkWriter.send.pre")
 	w.readers <- pr
+	simYield("ChunkWriter.send.post")
 	w.w = pw
 	w.prevKey = kv.Key
 
@@ -262,7 +273,9 @@ type UnchunkReader struct {
 // contains the unchunked value of the ServiceInfo so that the consumer does
 // not need to be aware of the MTU.
 func (r *UnchunkReader) NextServiceInfo() (key string, val io.ReadCloser, ok bool) {
+	simYield("UnchunkReader.next.wait")
 	val, ok = <-r.readers
+	simYield("UnchunkReader.next.woke")
 	if !ok {
 		return "", nil, false
 	}
@@ -316,6 +329,7 @@ func (w *UnchunkWriter) nextPipe(forceNewMessage bool) error {
 
 	// Lock the readers channel so that it's not closed while waiting on the
 	// select
+	simYield("nextPipe.lock")
 	w.readerMu.Lock()
 	// Never attempt the send once closing has started: readers may already be
 	// closed, and a select with both cases ready could choose the send and
@@ -323,6 +337,7 @@ func (w *UnchunkWriter) nextPipe(forceNewMessage bool) error {
 	select {
 	case <-w.closing:
 		w.readerMu.Unlock()
+		simYield("nextPipe.closed")
 		return io.ErrClosedPipe
 	default:
 	}
@@ -330,10 +345,12 @@ func (w *UnchunkWriter) nextPipe(forceNewMessage bool) error {
 	select {
 	case <-w.closing:
 		w.readerMu.Unlock()
+		simYield("nextPipe.closed")
 		return io.ErrClosedPipe
 	case w.readers <- pr:
 		w.readerMu.Unlock()
 	}
+	simYield("nextPipe.sent")
 
 	// Intentional breaks between messages are indicated by sending a writer
 	// which immediately returns EOF. This stops data chunks from automatically
@@ -356,6 +373,7 @@ func (w *UnchunkWriter) Write(p []byte) (n int, err error) { return w.w.Write(p)
 func (w *UnchunkWriter) Close() error {
 	// Lock the closing channel to ensure that concurrent calls to Close or
 	// CloseWithError don't double close the channel (will panic)
+	simYield("Close.closeMu")
 	w.closeMu.Lock()
 	select {
 	// Already closing
@@ -378,9 +396,11 @@ func (w *UnchunkWriter) Close() error {
 	// Lock the readers channel before closing in case a ChunkReader is waiting
 	// on one and hasn't exited the select due to the closing channel being
 	// closed
+	simYield("Close.readerMu")
 	w.readerMu.Lock()
 	close(w.readers)
 	w.readerMu.Unlock()
+	simYield("Close.closed")
 
 	// Close the writer so that all calls to Write error and ChunkReader
 	// receives EOF
@@ -392,6 +412,7 @@ func (w *UnchunkWriter) Close() error {
 func (w *UnchunkWriter) CloseWithError(err error) error {
 	// Lock the closing channel to ensure that concurrent calls to Close or
 	// CloseWithError don't double close the channel (will panic)
+	simYield("Close.closeMu")
 	w.closeMu.Lock()
 	select {
 	// Already closing
@@ -418,9 +439,11 @@ func (w *UnchunkWriter) CloseWithError(err error) error {
 	// Lock the readers channel before closing in case a ChunkReader is waiting
 	// on one and hasn't exited the select due to the closing channel being
 	// closed
+	simYield("Close.readerMu")
 	w.readerMu.Lock()
 	close(w.readers)
 	w.readerMu.Unlock()
+	simYield("Close.closed")
 
 	// Close the writer so that all calls to Write error and ChunkReader
 	// receives err
